@@ -13,7 +13,7 @@ META = {
             "ECC nine curves); (ii) construct() with valid component tuples in every accepted shape and single-fault corruptions (n+-2, wrong d, "
             "composite/Carmichael p, p*q != n, e even/1/>=n, wrong u; DSA composite p/q (also as true single faults: composite p = p1*m or q = q1*q2 with every other domain condition holding), every domain fault "
             "offered to DSA.generate(domain=) as well as construct(), q not dividing p-1, g of wrong order or in {0,1,p-1,p}, "
-            "y != g^x, x in {0,q,q+1}; ElGamal analogues; ECC off-curve (x, y+-1), coordinates >= p, twist points, point at infinity, d in "
+            "y != g^x, x in {0,q,q+1}; ElGamal analogues incl. a Carmichael modulus; ECC off-curve (x, y+-1), coordinates >= p, twist points, point at infinity, d in "
             "{0, order, order+1}, d not matching the point, wrong-length seeds, Montgomery low-order u and their non-canonical aliases, Edwards "
             "encodings with y >= p or no square root); (iii) import_key() on valid exports and on mutated encodings. Oracle: invariants evaluated "
             "with Python ints, sympy.isprime and the reference EC arithmetic: every returned key must satisfy all invariants of its type, and "
@@ -235,7 +235,7 @@ DSA_FAULTS = ["valid-4", "valid-5", "p-composite", "q-composite", "p-composite-o
               "y=0", "y=p", "y>=p", "q=0", "p=0"]
 DSA_DOMAIN_FAULTS = {"valid-4", "valid-5", "p-composite", "q-composite", "p-composite-only", "q-composite-only", "q-not-dividing", "g=0", "g=1", "g=p-1", "g=p",
                      "g-wrong-order"}      # not q=0 / p=0: generate() answers ZeroDivisionError there, and C05 fixes no exception type for generate()
-ELG_FAULTS = ["valid-3", "valid-4", "p-composite", "g=1", "g=p", "y!=g^x", "x=0", "x=p", "y=0", "y=p"]
+ELG_FAULTS = ["valid-3", "valid-4", "p-composite", "p-carmichael", "g=1", "g=p", "y!=g^x", "x=0", "x=p", "y=0", "y=p"]
 ECC_FAULTS = ["valid-d", "valid-xy", "valid-dxy", "valid-seed", "off-curve-y+1", "off-curve-y-1", "x>=p", "y>=p", "infinity", "twist", "d=0", "d=n", "d=n+1",
               "d-mismatch", "d-mismatch-special", "d-mismatch-special", "seed-short", "seed-long", "mont-low-order", "mont-low-order-alias", "ed-not-on-curve", "x-only-for-ws", "d-and-seed"]
 
@@ -341,7 +341,14 @@ def run_construct(case, rec):
     elif fam == "elgamal":
         p, g, y, x = keys.elgamal_numbers(256)
         tup = {"valid-3": (p, g, y), "valid-4": (p, g, y, x), "p-composite": (p + 2, g, y, x), "g=1": (p, 1, 1, x), "g=p": (p, p, y, x), "y!=g^x": (p, g, y + 1, x),
-               "x=0": (p, g, 1, 0), "x=p": (p, g, pow(g, p, p), p), "y=0": (p, g, 0), "y=p": (p, g, p)}[fault]
+               "x=0": (p, g, 1, 0), "x=p": (p, g, pow(g, p, p), p), "y=0": (p, g, 0), "y=p": (p, g, p)}.get(fault)
+        if tup is None:
+            # single fault: a Carmichael modulus C (g^(C-1) = 1 mod C for every g coprime to C) with y = g^x mod C: only the primality test can refuse it
+            C_ = keys._cached("elg-carmichael-256", lambda: [carmichael(256)])[0]
+            g_ = 2 + case["pos"] % 50
+            if math.gcd(g_, C_) != 1 or pow(g_, C_ - 1, C_) != 1:
+                raise Skip()
+            tup = (C_, g_, pow(g_, x, C_), x)
         f = lambda: ElGamal.construct(tup)
         entry = "ElGamal.construct"
     else:
